@@ -16,7 +16,7 @@ from ..ctx import CTX, RunTooBig
 from ..history import History, canon, canon_outcome, digest
 from ..rng import Streams, chance, pick, weighted
 from ..sim import apply_op, build_sim, locations, readable
-from ..world import gen_inputs, gen_request, gen_situation, gen_value, gen_world
+from ..world import gen_inputs, gen_request, gen_situation, gen_value, gen_world, wide_knob
 from . import Result
 from .c13 import structure
 from .c17 import UNITS
@@ -50,6 +50,7 @@ def generate(seed: int, tier: str) -> dict:
         n_vars=wr.randint(3, 9 if tier == "quick" else 14),
         max_depth=2,
         units=UNITS if profile == "acyclic" else None,
+        wide=wide_knob(wr, tier, 0.15),
     )
     ir = st["inputs"]
     situation = gen_situation(ir, world, max_persons=5 if tier == "quick" else 12, trailing_empty_ok=True)
